@@ -205,6 +205,15 @@ def main(ck, tier, w):
             d3 = write_dir(w, blocks, coin, stored)
             r3 = run.run_parser(d3.path, 'simplestats', coin=coin, start=start or None, verify=True)
             probs += ['re-encoded length field at height %d: %s' % (h, p) for p in judge(r3, False, h, 'simplestats')]
+        # a copy of the coin's genesis block stored at a later height is internally consistent (merkle root, known hash) but does
+        # not link to the block below it, and height 0 is the only place where the genesis hash settles anything
+        if not probs and real and len(blocks) > 2:
+            h = r0.randrange(max(start, 1), len(blocks))
+            stored = [b['raw'] for b in blocks]
+            stored[h] = blocks[0]['raw']
+            d4 = write_dir(w, blocks, coin, stored)
+            r4 = run.run_parser(d4.path, 'simplestats', coin=coin, start=start or None, verify=True)
+            probs += ['genesis block stored at height %d: %s' % (h, p) for p in judge(r4, False, h, 'simplestats')]
         # witness bytes are not covered by a txid: flipping them must not cause a rejection
         if segwit and not probs:
             stored = [b['raw'] for b in blocks]
